@@ -123,6 +123,10 @@ pub fn has_reserved_word_as_word_token(lang: &Lang, xt: &XTree, text: &[u8]) -> 
     xt.nodes.iter().any(|n| n.kind_id == wid && n.end <= text.len() && reserved.iter().any(|r| r.as_bytes() == &text[n.start..n.end]))
 }
 
+pub fn stack_at(xt: &XTree, i: usize, l: &tree_sitter::Language) -> String {
+    xt.nodes.iter().filter(|n| n.start <= i && i < n.end).map(|n| format!("{}[{}..{}]", kind_name(l, n.kind_id), n.start, n.end)).collect::<Vec<_>>().join(" > ")
+}
+
 pub struct SessionCfg {
     pub max_edits: usize,
 }
@@ -240,6 +244,14 @@ pub fn run_session(ctx: &mut Ctx, t: &mut Tape, mode: Mode) {
             }
         }
         let old_x = if mode == Mode::C04 { Some(XTree::build(&old)) } else { None };
+        let ranges_differ = match &cur_ranges {
+            Some(rs) => {
+                let o: Vec<(usize, usize)> = old.included_ranges().iter().map(|r| (r.start_byte, r.end_byte)).collect();
+                let n: Vec<(usize, usize)> = rs.iter().map(|r| (r.start_byte, r.end_byte)).collect();
+                o != n
+            }
+            None => false,
+        };
         // chunks shorter than a character are C09's business (known finding there): keep them whole-character here
         let eff_chunk = match &chunk {
             Chunking::Fixed(k) if *k < 4 && text.bytes.iter().any(|b| *b >= 0x80) => Chunking::Fixed(4),
@@ -392,12 +404,32 @@ pub fn run_session(ctx: &mut Ctx, t: &mut Tape, mode: Mode) {
                             let covered = ranges.iter().any(|r| r.start_byte <= i && i < r.end_byte);
                             if !covered {
                                 let b = text.bytes[i];
-                                let cls = if b == b'\n' || b == b'\r' { "newline" } else if b == b' ' || b == b'\t' { "whitespace" } else { "token" };
+                                let in_error_region = inc_x.nodes.iter().any(|n| n.parent.is_some() && n.start <= i && i < n.end && n.has_error)
+                                    && old_x.nodes.iter().any(|n| n.parent.is_some() && n.start <= i && i < n.end && n.has_error);
+                                let cls = if in_error_region {
+                                    "erroneous_region"
+                                } else if b == b'\n' || b == b'\r' {
+                                    "newline"
+                                } else if (b == b' ' || b == b'\t') && (ranges_changed || ranges_differ) {
+                                    "whitespace_next_to_changed_included_range"
+                                } else if (b == b' ' || b == b'\t') && old_had_error {
+                                    "whitespace_old_tree_erroneous"
+                                } else if b == b' ' || b == b'\t' {
+                                    "whitespace"
+                                } else {
+                                    "token"
+                                };
+                                if ctx.is_known(&format!("C04:uncovered:{cls}")) {
+                                    ctx.fail(format!("C04:uncovered:{cls}"), "");
+                                    break;
+                                }
                                 ctx.fail(
                                     format!("C04:uncovered:{cls}"),
                                     describe(&format!(
-                                        "byte {i} (0x{b:02x}) has a different stack of enclosing node kinds but lies in no changed range {:?}\nold(edited)={}\nnew        ={}",
+                                        "byte {i} (0x{b:02x}) has a different stack of enclosing node kinds but lies in no changed range {:?}\nstack in old(edited): {}\nstack in new: {}\nold(edited)={}\nnew        ={}",
                                         ranges.iter().map(|r| (r.start_byte, r.end_byte)).collect::<Vec<_>>(),
+                                        stack_at(&old_x, i, &lang.language),
+                                        stack_at(&inc_x, i, &lang.language),
                                         old_x.render(&lang.language, 120),
                                         inc_x.render(&lang.language, 120)
                                     )),
@@ -445,7 +477,7 @@ impl Check for C01 {
     }
     fn cases(&self, tier: Tier) -> u64 {
         match tier {
-            Tier::Quick => 12_000,
+            Tier::Quick => 60_000,
             Tier::Thorough => 400_000,
         }
     }
@@ -473,7 +505,7 @@ impl Check for C04 {
     }
     fn cases(&self, tier: Tier) -> u64 {
         match tier {
-            Tier::Quick => 12_000,
+            Tier::Quick => 60_000,
             Tier::Thorough => 400_000,
         }
     }
